@@ -149,19 +149,36 @@ def join(toks, sep):
     return sep.join(toks)
 
 
-def minimal_tokens(toks, sep, wrap, cls, prop, full):
-    """Report a failing token string only if deleting any single token no longer fails with `cls`."""
-    for i in range(len(toks)):
-        t2 = toks[:i] + toks[i + 1 :]
-        if not t2:
-            continue
-        text = wrap[0] + join(t2, sep) + wrap[1]
-        if any(c == cls for c, _ in judge(text, prop, full)[1]):
-            return False
+def minimal_tokens(toks, sep, wrap, cls, prop, full, _budget=None):
+    """Minimal failing token strings reachable by deleting tokens / dropping the surrounding whitespace
+    (evaluated on demand: the shorter texts need not be members of the enumerated plan).
+    -> list of (toks, sep, wrap)"""
+    if _budget is None:
+        _budget = [400]
+    smaller = []
     if wrap != ("", ""):
         if any(c == cls for c, _ in judge(join(toks, sep), prop, full)[1]):
-            return False
-    return True
+            smaller.append((toks, sep, ("", "")))
+    if not smaller:
+        for i in range(len(toks)):
+            t2 = toks[:i] + toks[i + 1 :]
+            if not t2:
+                continue
+            _budget[0] -= 1
+            if _budget[0] < 0:
+                break
+            text = wrap[0] + join(t2, sep) + wrap[1]
+            if any(c == cls for c, _ in judge(text, prop, full)[1]):
+                smaller.append((t2, sep, wrap))
+                break  # one witness is enough: follow it down
+    if not smaller:
+        return [(toks, sep, wrap)]
+    out = []
+    for t2, s2, w2 in smaller:
+        for m in minimal_tokens(t2, s2, w2, cls, prop, full, _budget):
+            if m not in out:
+                out.append(m)
+    return out
 
 
 def work(unit):
@@ -177,8 +194,10 @@ def work(unit):
         tag, found = judge(text, prop, full)
         tags[tag] += 1
         for cls, detail in found:
-            if minimal_tokens(toks, sep, wrap, cls, prop, full):
-                fails.append((f"{cls}|{text!r}", cls, {"kind": "text", "text": text, "full": full}, detail))
+            for mt, ms, mw in minimal_tokens(toks, sep, wrap, cls, prop, full):
+                mtext = mw[0] + join(mt, ms) + mw[1]
+                det = next((d for c, d in judge(mtext, prop, full)[1] if c == cls), detail)
+                fails.append((f"{cls}|{mtext!r}", cls, {"kind": "text", "text": mtext, "full": full}, det))
 
     if kind == "strings":
         for combo in payload:
@@ -188,6 +207,14 @@ def work(unit):
                     continue
                 for wrap in (WRAPS if len(toks) <= 2 else WRAPS[:1]):
                     handle(toks, sep, wrap, "string")
+    elif kind == "double":
+        # fault sequences: a trailing formals comma (MISSING node for the pinned grammar, valid Nix)
+        # followed by every single-point damage of the rest
+        for toks in payload:
+            handle(toks, " ", ("", ""), "pre-damaged")
+            for dk, t2 in damages(toks, True):
+                if t2:
+                    handle(t2, " ", ("", ""), "double-" + dk)
     elif kind == "damage":
         for prog, dfull in payload:
             toks = seed_tokens(prog)
@@ -228,6 +255,12 @@ def run(prop: str, tier: str) -> core.Report:
     progs = d1 + d2
     for i in range(0, len(progs), 40):
         units.append(("damage", prop, progs[i : i + 40], True))
+    pre = [
+        ["{", "a", ",", "b", ",", "}", ":", "{", "c", "=", "1", ";", "d", "=", "[", "x", "]", ";", "}"],
+        ["{", "a", ",", "b", ",", "}", ":", "f", "(", "x", ")"],
+        ["{", "a", ",", "}", ":", "let", "c", "=", "1", ";", "in", "c"],
+    ]
+    units.append(("double", prop, pre, True))
     if prop == "C20":
         # C20a also covers the whole E1 space: valid programs must not raise internal errors either
         pass
@@ -245,13 +278,13 @@ def run(prop: str, tier: str) -> core.Report:
     cov = {
         "evaluations": n,
         "distinct_nontrivial": nontrivial,
-        "rule": f"all {len(combos)} token strings of length <= {L} over a {len(ALPHA)}-token alphabet (joined with and without spaces; 4 surrounding-whitespace variants for length <= 2) + every single-point damage (delete/duplicate/swap a token, insert each of {len(INSERT)} tokens at each gap, truncate at every byte, delete-last with surrounding whitespace) of {len(progs)} seed programs; a text is in C07's domain iff tree-sitter reports ERROR or MISSING; non-trivial = " + ("texts in that domain" if prop == "C07" else "every text"),
+        "rule": f"all {len(combos)} token strings of length <= {L} over a {len(ALPHA)}-token alphabet (joined with and without spaces; 4 surrounding-whitespace variants for length <= 2) + every single-point damage (delete/duplicate/swap a token, insert each of {len(INSERT)} tokens at each gap, truncate at every byte, delete-last with surrounding whitespace) of {len(progs)} seed programs, plus double faults (3 programs with a trailing formals comma x every single-point damage); a text is in C07's domain iff tree-sitter reports ERROR or MISSING; non-trivial = " + ("texts in that domain" if prop == "C07" else "every text"),
         "samples": [" ".join(c) for c in core.pick_samples(combos, 4)] + [" ".join(seed_tokens(p)[:-1]) for p, _ in core.pick_samples(progs, 2)],
         "exhaustive": True,
         "domain_tags": dict(tags),
         "seed_programs": len(progs),
     }
-    return core.Report(prop=prop, level=level, coverage=cov, failures=sorted(fl.values(), key=lambda f: f.sig), assumptions=["tree-sitter-nix 0.1.0 decides which texts have a syntax error (ERROR or MISSING node)", "a failing text is reported only if deleting any single token (or, for truncations, one more byte) no longer fails the same way", "`nima test` is called in-process (C16 checks that the subprocess agrees)"])
+    return core.Report(prop=prop, level=level, coverage=cov, failures=sorted(fl.values(), key=lambda f: f.sig), assumptions=["tree-sitter-nix 0.1.0 decides which texts have a syntax error (ERROR or MISSING node)", "a failing text is reported through a minimal failing text reached by deleting tokens (or, for truncations, bytes)", "`nima test` is called in-process (C16 checks that the subprocess agrees)"])
 
 
 def replay(case, prop):
